@@ -52,7 +52,9 @@ def gen_single_root(rng: random.Random, max_groups: int = 4, multi_cfw: bool = T
     req = rng.sample(derived, rng.randrange(1, min(3, len(derived)) + 1))
     if rng.random() < 0.3:
         req.append(rng.choice(list(cols)))
-    return {"groups": groups, "request": req}
+    # inplace: derived calculations extend the incoming pandas frame / python-dict rows in place (as mloda's built-in feature
+    # groups do) instead of returning a fresh table
+    return {"groups": groups, "request": req, "inplace": rng.random() < 0.4}
 
 
 def gen_two_roots_inner(rng: random.Random) -> Dict[str, Any]:
